@@ -117,7 +117,7 @@ class IC(object):
         XY = np.zeros((n, n)); XX = np.zeros((n, n))
         for u in self.nodes:
             for v in self.adj[u]:
-                XY[idx[u], idx[v]] = self.X0[idx[u]] * self.Y0[idx[v]]
+                XY[idx[u], idx[v]] = self.X0[idx[u]] * self.Y0[idx[v]] * getattr(self, 'xy_factor', 1.0)
                 XX[idx[u], idx[v]] = self.X0[idx[u]] * self.X0[idx[v]]
         return XY, XX
 
@@ -291,6 +291,12 @@ def _ssc_singular(ic):
     return abs(k2 - k1 * k1) < 1e-12      # SIS super-compact closure divides by the degree variance
 
 
+def _lay(c, M):
+    """a 2-D initial-condition array in the caller's memory layout: C order, or Fortran order (a transposed table, np.asfortranarray)"""
+    M = M.copy()
+    return np.asfortranarray(M) if c.get('f_order') else M
+
+
 def entries():
     E = []
     A = E.append
@@ -310,7 +316,13 @@ def entries():
             n = ic.N
             Y0 = ic.Y0.copy()
             X0 = ic.X0.copy()
-            kw = {'nodelist': nodes, 'Y0': Y0, 'XY0': X0[:, None] * Y0[None, :], 'XX0': X0[:, None] * X0[None, :]}
+            kw = {'nodelist': nodes, 'Y0': Y0, 'XY0': X0[:, None] * Y0[None, :] * getattr(ic, 'xy_factor', 1.0), 'XX0': X0[:, None] * X0[None, :]}
+            if c.get('pair_arrays') == 'XY0-only':
+                del kw['XX0']           # each of the two is documented with its own default (the independence product)
+            elif c.get('pair_arrays') == 'XX0-only' and getattr(ic, 'xy_factor', 1.0) == 1.0:
+                del kw['XY0']
+            if c.get('f_order'):
+                kw = {k: (np.asfortranarray(v) if isinstance(v, np.ndarray) and v.ndim == 2 else v) for k, v in kw.items()}
             if sir:
                 kw['X0'] = X0
             return [oracles.build_graph(c['gc']), c['tau'], c['gamma']], kw
@@ -367,11 +379,23 @@ def entries():
     A(Entry('SIS_heterogeneous_meanfield', 'SIS', 'direct', ['rho', 'sets'], _direct('SIS_heterogeneous_meanfield', lambda c, ic: ([ic.Sk0.copy(), ic.Ik0.copy(), c['tau'], c['gamma']], {})), {'Sk': 3, 'Ik': 4}))
     A(Entry('SIR_heterogeneous_meanfield', 'SIR', 'direct', ['rho', 'sets'], _direct('SIR_heterogeneous_meanfield', lambda c, ic: ([ic.Sk0.copy(), ic.Ik0.copy(), ic.Rk0.copy(), c['tau'], c['gamma']], {})), {'Sk': 'any2d'}))
     A(Entry('SIS_heterogeneous_pairwise', 'SIS', 'direct', ['rho', 'sets'], _direct('SIS_heterogeneous_pairwise',
-            lambda c, ic: ([ic.by_Ks(ic.Sk0), ic.by_Ks(ic.Ik0), ic.SkSl0.copy(), ic.SkIl0.copy(), ic.IkIl0.copy(), c['tau'], c['gamma']], {'Ks': np.array(ic.Ks, dtype=(float if c.get('float_Ks') else int))})),
+            lambda c, ic: ([ic.by_Ks(ic.Sk0), ic.by_Ks(ic.Ik0), _lay(c, ic.SkSl0), _lay(c, ic.SkIl0), _lay(c, ic.IkIl0), c['tau'], c['gamma']], {'Ks': np.array(ic.Ks, dtype=(float if c.get('float_Ks') else int))})),
             {'SkK': 3, 'IkK': 4, 'SkIl': 5, 'SkSl': 6, 'IkIl': 7}, nmax=10))
     A(Entry('SIR_heterogeneous_pairwise', 'SIR', 'direct', ['rho', 'sets'], _direct('SIR_heterogeneous_pairwise',
-            lambda c, ic: ([ic.by_Ks(ic.Sk0), ic.by_Ks(ic.Ik0), ic.by_Ks(ic.Rk0), ic.SkSl0.copy(), ic.SkIl0.copy(), c['tau'], c['gamma']], {'Ks': np.array(ic.Ks, dtype=(float if c.get('float_Ks') else int))})),
+            lambda c, ic: ([ic.by_Ks(ic.Sk0), ic.by_Ks(ic.Ik0), ic.by_Ks(ic.Rk0), _lay(c, ic.SkSl0), _lay(c, ic.SkIl0), c['tau'], c['gamma']], {'Ks': np.array(ic.Ks, dtype=(float if c.get('float_Ks') else int))})),
             {'SkK': 4, 'IkK': 5, 'RkK': 6, 'SkIl': 7, 'SkSl': 8}, nmax=10))
+
+    # the documented array interface without Ks: arrays indexed by degree 0..kmax, unobserved degrees hold zeros
+    def dense2(ic, M):
+        out = np.zeros((ic.maxk + 1, ic.maxk + 1))
+        for a, ka in enumerate(ic.Ks):
+            for b, kb in enumerate(ic.Ks):
+                out[ka, kb] = M[a, b]
+        return out
+    A(Entry('SIS_heterogeneous_pairwise[dense]', 'SIS', 'direct', ['rho', 'sets'], _direct('SIS_heterogeneous_pairwise',
+            lambda c, ic: ([ic.Sk0.copy(), ic.Ik0.copy(), dense2(ic, ic.SkSl0), dense2(ic, ic.SkIl0), dense2(ic, ic.IkIl0), c['tau'], c['gamma']], {})), {}, nmax=10))
+    A(Entry('SIR_heterogeneous_pairwise[dense]', 'SIR', 'direct', ['rho', 'sets'], _direct('SIR_heterogeneous_pairwise',
+            lambda c, ic: ([ic.Sk0.copy(), ic.Ik0.copy(), ic.Rk0.copy(), dense2(ic, ic.SkSl0), dense2(ic, ic.SkIl0), c['tau'], c['gamma']], {})), {}, nmax=10))
     A(Entry('SIS_compact_pairwise', 'SIS', 'direct', ['rho', 'sets'], _direct('SIS_compact_pairwise', lambda c, ic: ([ic.Sk0.copy(), ic.Ik0.copy(), ic.SI0, ic.SS0, ic.II0, c['tau'], c['gamma']], {})), {'Sk': 3, 'Ik': 4, 'SI': 5, 'SS': 6, 'II': 7}))
     A(Entry('SIS_compact_effective_degree', 'SIS', 'direct', ['rho', 'sets'], _direct('SIS_compact_effective_degree', lambda c, ic: ([ic.Sk0.copy(), ic.Ik0.copy(), ic.SI0, ic.SS0, ic.II0, c['tau'], c['gamma']], {})), {'Sk': 3, 'Ik': 4, 'SI': 5, 'SS': 6, 'II': 7}))
     A(Entry('SIR_compact_pairwise', 'SIR', 'direct', ['rho', 'sets'], _direct('SIR_compact_pairwise', lambda c, ic: ([ic.Sk0.copy(), ic.I0, ic.R0, ic.SS0, ic.SI0, c['tau'], c['gamma']], {})), {'Sk': 1, 'SS': 4, 'SI': 5, '_full_sir': (1, 2, 3)}))
@@ -512,6 +536,12 @@ def analytic_case(draw, names=None, nmax=12, need_edge=True, modes=('rho', 'sets
         gc['ew'] = {'weight': [draw(wp2) for _ in gc['edges']]}
         gc['nw'] = {'weight': [draw(wp2) for _ in gc['nodes']]}
         case['stray_weight_attributes'] = True
+    if 'heterogeneous_pairwise' in name and e.level == 'direct' or name.endswith('pair_based[arrays]'):
+        case['f_order'] = draw(st.integers(0, 2)) == 0
+    if name.endswith('pair_based[arrays]'):
+        case['pair_arrays'] = draw(st.sampled_from(['both', 'both', 'XY0-only', 'XX0-only']))
+        if mode == 'rho' and draw(st.booleans()):
+            case['xy_factor'] = 0.8             # a consistent, negatively correlated initial state: <X_i Y_j> = 0.8 X_i Y_j on the edges
     if name in ('EBCM_pref_mix', 'EBCM_pref_mix_discrete'):
         case['pnk_defaultdict'] = draw(st.booleans())
         if dense:
@@ -522,6 +552,13 @@ def analytic_case(draw, names=None, nmax=12, need_edge=True, modes=('rho', 'sets
 
 
 def make_ic(case):
+    ic = _make_ic(case)
+    if case.get('xy_factor'):
+        ic.xy_factor = case['xy_factor']
+    return ic
+
+
+def _make_ic(case):
     e = ENTRIES[case['entry']]
     if case['mode'] == 'rho':
         rho = case['rho']
